@@ -55,6 +55,7 @@ impl Vm {
                     self.bp = 0;
                     self.ep = usize::MAX;
                     self.acc = VCell::Undefined;
+                    self.run_gc();
                     return Err(e);
                 }
             }
